@@ -603,6 +603,16 @@ func runC03(c *Ctx) {
 	c.ruleSendHoldsNothing("C03.inventory")
 	c.rulePrivate(a)
 	c.ruleMakeSizes("C03.private")
+	// Send's first step is Broker.lock.RLock(), which does not look at the context: a broker call that
+	// invokes an extension point (Close, Reopen) with Broker.lock held lets a node that sends through the
+	// Broker wait for a lock its own caller holds — that Send never returns, and every later Send queues
+	// behind the stuck writer, cancelled or not. The lock-order rules of C12 over the root package.
+	c.lockOrderRules("C03", func(fn *ssa.Function) bool { return PkgPathOf(fn) == PkgRoot }, []string{"eventlogger.Broker.lock"}, []string{PkgRoot}, false, func() (bool, string) {
+		if c.ruleGatedPass("C03.e1-pass") && c.ruleGatedNoGate("C03.e1-nogate") {
+			return true, "openGate only sends a payload proven not Gateable, and Process returns a non-Gateable event before locking"
+		}
+		return false, "C11.pass / C11.nogate do not both hold"
+	})
 	// Send's first blocking step is Broker.lock.RLock(): it is acquirable again after every other
 	// Broker call only if each acquisition in the package is released on every path — a refused
 	// RemoveNode that returns with the write lock held makes every later Send block for ever,
